@@ -321,7 +321,7 @@ func (c *Case) Sibling(t *rapid.T) *Case {
 	}
 	if c.MacKey != nil {
 		s.MacKey = gen.BytesN(t, "sibmackey", len(c.MacKey))
-		if string(s.MacKey) == string(c.MacKey) {
+		if SameMacKey(s.MacKey, c.MacKey) {
 			s.MacKey[0] ^= 1
 		}
 	}
@@ -385,3 +385,16 @@ func FromBytes(sel uint32, seed uint64) (*Case, error) {
 
 // Rebuild constructs the primitive again from the case's current Key / MacKey slices.
 func (c *Case) Rebuild() error { return c.build() }
+
+// SameMacKey reports whether two HMAC keys may be equivalent: HMAC pads short keys with zero
+// bytes, so keys that differ only in trailing zeros are the same key. (Conservative: used to keep
+// "another key" candidates genuinely different.)
+func SameMacKey(a, b []byte) bool {
+	trim := func(x []byte) []byte {
+		for len(x) > 0 && x[len(x)-1] == 0 {
+			x = x[:len(x)-1]
+		}
+		return x
+	}
+	return string(trim(a)) == string(trim(b))
+}
